@@ -320,19 +320,23 @@ def repro_pool(case, mode, seed, tie_data=False):
         if tie_data:
             _tie(data)
         kw = case.query_kwargs(data, case.models(), mode)
+        # same global state before both calls: isolates state carried by the object itself
         np.random.seed(GLOBAL_SEEDS[0])
         r1 = snap.out_canon(_call(qs.query, **kw))
+        np.random.seed(GLOBAL_SEEDS[0])
         r2 = snap.out_canon(_call(qs.query, **kw))
+        # and without re-seeding: the second call sees whatever the first left in the global generator
+        r3 = snap.out_canon(_call(qs.query, **kw))
     except Exception as e:
         return findings, dict(raised=f"{type(e).__name__}: {str(e)[:100]}")
     info["global_state_advanced"] = any(adv for _, adv in outs)
     if len({repr(o) for o, _ in outs}) == 1 and o_twin != outs[0][0]:
         findings.append(dict(kind="twin-differs", name="query", what="two freshly constructed strategies with equal parameters return different results for the same call (same global seed)"))
-    if len({repr(o) for o, _ in outs}) > 1:
-        findings.append(dict(kind="global-rng-dependence", name="query", what=f"the result of query depends on np.random.seed(...) (seeds {GLOBAL_SEEDS}) although random_state is an integer (a repeated identical query {'also differs' if r1 != r2 else 'agrees'})"))
+    if len({repr(o) for o, _ in outs}) > 1 or (r1 == r2 and r3 != r2):
+        findings.append(dict(kind="global-rng-dependence", name="query", what=f"the result of query depends on the state of numpy's global generator (np.random.seed {GLOBAL_SEEDS} / repeated call without re-seeding) although random_state is an integer"))
         return findings, info       # same root cause as a differing repeat / twin
     if r1 != r2:
-        findings.append(dict(kind="repeat-differs", name="query", what="repeating the identical query on one strategy gives a different result"))
+        findings.append(dict(kind="repeat-differs", name="query", what="repeating the identical query on one strategy (same global generator state) gives a different result"))
     return findings, info
 
 
